@@ -60,6 +60,8 @@ def gen_case(rng, big):
         else:
             kinds = ['rt', 'rt', 'rebuild', 'scaled', 'shifted', 'reversed', 'scale', 'shift', 'reverse', 'mat']
         op = str(rng.choice(kinds))
+        if op == 'rt' and rng.random() < 0.2:
+            op = 'rtas'
         i = int(rng.integers(0, len(meta)))
         sysm, ndim, isint = meta[i]
         if op in ('shift', 'shifted') and sysm == 'p':
@@ -68,7 +70,21 @@ def gen_case(rng, big):
             op = 'reverse'      # integer-dtype twins exist only to be compared and hashed
         if isint and op in ('shifted', 'scaled'):
             op = 'reversed'
-        if op == 'rt':
+        if op == 'rtas':
+            # from_dict of the dictionary with its two names replaced: the other system (2-D), an unknown system, an unknown type
+            r = rng.random()
+            other = {'c': 'polar', 'p': 'cartesian'}[sysm]
+            if r < 0.45 and ndim == 2 and not isint:
+                ops.append(['rtas', i, other, None])
+                meta.append((other[0], ndim, isint))
+            elif r < 0.6:
+                ops.append(['rtas', i, {'c': 'cartesian', 'p': 'polar'}[sysm], None])
+                meta.append(meta[i])
+            elif r < 0.8:
+                ops.append(['rtas', i, str(rng.choice(['spherical', 'Cartesian', 'polar_'])), None])
+            else:
+                ops.append(['rtas', i, None, str(rng.choice(['regular_', 'Separated', 'unstructured ', 'coords']))])
+        elif op == 'rt':
             ops.append(['rt', i, str(rng.choice(['copy', 'dict', 'pickle']))])
             meta.append(meta[i])
         elif op == 'rebuild':
@@ -204,6 +220,50 @@ def observe(grids):
     return {'snaps': snaps, 'eq': eq, 'hash': hashes}
 
 
+LAST = {}
+
+
+def canon_dict(tree):
+    """what `Grid.to_dict()` wrote, as plain Python values (names verbatim)"""
+    c = tree['coords']
+    w = tree['weights']
+    out = {'sys': tree['coordinate_system'], 'type': c['type'], 'delta': [], 'dims': [], 'zero': [], 'arrays': [],
+           'w': None if w is None else float(w) if np.ndim(w) == 0 else [float(v) for v in np.asarray(w).ravel()],
+           'keys': sorted(tree.keys()), 'ckeys': sorted(c.keys())}
+    if 'delta' in c:
+        out['delta'] = [float(v) for v in c['delta']]
+        out['dims'] = [int(v) for v in c['dims']]
+        out['zero'] = [float(v) for v in c['zero']]
+    if 'separated_coords' in c:
+        out['arrays'] = [[float(v) for v in a] for a in c['separated_coords']]
+    if 'coords' in c:
+        out['arrays'] = [[float(v) for v in a] for a in c['coords']]
+    return out
+
+
+def compare_dict(ans, real, snap):
+    """None, or the first difference between the model's `toDict` and what `to_dict()` wrote for a grid
+    whose snapshot is `snap`"""
+    t = ans.split(' ')
+    if t[0] != 'ok' or len(t) != 8:
+        return 'model answered %r' % ans
+    want_keys = {'reg': ['delta', 'dims', 'type', 'zero'], 'sep': ['separated_coords', 'type'], 'uns': ['coords', 'type']}[snap['kind']]
+    if real['keys'] != ['coordinate_system', 'coords', 'weights'] or real['ckeys'] != want_keys:
+        return 'keys %r / %r' % (real['keys'], real['ckeys'])
+    if t[1] != real['sys'] or t[2] != real['type']:
+        return 'names %s/%s vs %s/%s' % (t[1], t[2], real['sys'], real['type'])
+    if not G.lists_close(G.parse_rat_list(t[3]), real['delta']) or not G.lists_close(G.parse_rat_list(t[5]), real['zero']):
+        return 'delta/zero %s %s vs %r %r' % (t[3], t[5], real['delta'], real['zero'])
+    if [int(x) for x in G.parse_rat_list(t[4])] != real['dims']:
+        return 'dims %s vs %r' % (t[4], real['dims'])
+    ma = G.parse_rat_lists(t[6])
+    if len(ma) != len(real['arrays']) or not all(G.lists_close(a, b) for a, b in zip(ma, real['arrays'])):
+        return 'arrays %s vs %r' % (t[6][:120], real['arrays'])
+    if not G.w_same(G.parse_w(t[7]), real['w']):
+        return 'weights %s vs %r' % (t[7][:80], real['w'])
+    return None
+
+
 def apply_real(grids, op, pool=None, shared=False):
     """Apply one op to the list of live hcipy grids. Returns status string."""
     import hcipy
@@ -213,6 +273,21 @@ def apply_real(grids, op, pool=None, shared=False):
             g = G.build(op[1], pool)
             G.validate(g)           # a grid that cannot report its own coordinates / points counts as a failed construction
             grids.append(g)
+        elif kind == 'rt' and op[2] == 'dict':
+            tree = grids[op[1]].to_dict()
+            LAST['dict'] = canon_dict(tree)
+            grids.append(hcipy.Grid.from_dict(tree))
+        elif kind == 'rtas':
+            tree = grids[op[1]].to_dict()
+            LAST['dict'] = canon_dict(tree)
+            if op[2] is not None:
+                tree['coordinate_system'] = op[2]
+            if op[3] is not None:
+                tree['coords']['type'] = op[3]
+            try:
+                grids.append(hcipy.Grid.from_dict(tree))
+            except KeyError:
+                return 'err:key'
         elif kind == 'rt':
             grids.append(G.roundtrip(grids[op[1]], op[2]))
         elif kind == 'rebuild':
@@ -259,6 +334,8 @@ def apply_real(grids, op, pool=None, shared=False):
 def model_op_lines(op, pool):
     if op[0] == 'new':
         return G.new_lines('C10', op[1], pool)
+    if op[0] == 'rtas' or (op[0] == 'rt' and op[2] == 'dict'):
+        return ['C10 todict %d' % op[1], model_op_line(op)]
     return [model_op_line(op)]
 
 
@@ -266,6 +343,10 @@ def model_op_line(op):
     kind = op[0]
     if kind == 'new':
         return G.new_line('C10', op[1])
+    if kind == 'rtas':
+        return 'C10 rtdictas %d %s %s' % (op[1], op[2] if op[2] is not None else '=', (op[3] if op[3] is not None else '=').replace(' ', '_'))
+    if kind == 'rt' and op[2] == 'dict':
+        return 'C10 rtdict %d' % op[1]
     if kind in ('rt', 'rebuild'):
         return 'C10 copy %d' % op[1]
     if kind in ('scaled', 'scale'):
@@ -283,8 +364,9 @@ def run_real(case):
     pool = G.Pool()
     for op in case['ops']:
         before = [G.snap(g) for g in grids]
+        LAST.clear()
         status = apply_real(grids, op, pool, case.get('shared', False))
-        steps.append({'op': op, 'status': status, 'before': before, 'obs': observe(grids), 'caller_changed': pool.changed(),
+        steps.append({'op': op, 'status': status, 'before': before, 'dict': LAST.get('dict'), 'obs': observe(grids), 'caller_changed': pool.changed(),
                       'pool': [a.tolist() for a in pool.arrays], 'pool_keys': list(pool.keys)})
         if status != 'ok':
             break       # later ops refer to slots that may not exist; the history ends here
@@ -339,6 +421,8 @@ def oracle(steps):
             if opname == 'new':
                 bad.append(('new-raises', 'constructing (or reading the points of) a %s %s grid with argument forms %r / int=%r raised %s' % (
                     op[1]['sys'], op[1]['kind'], op[1].get('forms'), op[1].get('int'), status[4:])))
+            elif opname == 'rtas' and status == 'err:key' and (op[2] not in (None, 'cartesian', 'polar') or op[3] is not None):
+                pass        # from_dict of a dictionary with an unknown name: KeyError is the specified answer
             elif not undefined_weights:
                 bad.append(('op-raises %s' % opname, '%s raised %s on a %s %s grid' % (
                     opname, status[4:], src['sys'] if src else '-', src['kind'] if src else '-')))
@@ -407,6 +491,11 @@ def oracle(steps):
                     op[2], obs['eq'][op[1]][n - 1], 'are all unchanged (shift absorbed)' if absorbed else 'changed')))
             elif absorbed and obs['hash'][op[1]] != obs['hash'][n - 1]:
                 bad.append(('float-shift-identity', 'an absorbed shift changed the hash'))
+        if opname == 'rtas':
+            a, b = snaps[n - 1], snaps[op[1]]
+            if (a['sys'], a['kind'], a['data'], a['w']) != (op[2][0], b['kind'], b['data'], b['w']):
+                bad.append(('from-dict-names', 'from_dict of the dictionary of a %s %s grid with coordinate_system=%r is a %s %s grid with %s' % (
+                    b['sys'], b['kind'], op[2], a['sys'], a['kind'], 'the same values' if a['data'] == b['data'] else 'other values')))
         if opname in ('rt', 'rebuild'):
             if obs['eq'][op[1]][n - 1] is not True or obs['eq'][n - 1][op[1]] is not True:
                 bad.append(('eq-identical',
@@ -500,6 +589,10 @@ DIRECTED_SHARED = [
 DIRECTED = [
     # ragged separated grid: reflexivity, copies (D2)
     {'ops': [['new', S('c', 'sep', [[0.0, 1.0, 2.0], [0.0, 1.0]])], ['rt', 0, 'copy'], ['rt', 0, 'dict'], ['rt', 0, 'pickle'], ['rebuild', 0, False]]},
+    {'ops': [['new', S('c', 'reg', [[0.5, 0.25], [4, 3], [-1.0, 0.0]], 2.0)], ['rtas', 0, 'polar', None], ['rtas', 0, 'spherical', None],
+             ['rtas', 0, None, 'Regular'], ['rtas', 1, 'cartesian', None], ['rt', 1, 'dict']]},
+    {'ops': [['new', S('p', 'uns', [[1.0, 2.0, 0.5], [0.0, 1.0, 2.0]], [1.0, 2.0, 3.0])], ['rt', 0, 'dict'], ['rtas', 0, 'cartesian', None],
+             ['scale', 2, ['v', [2.0, -1.0]]], ['rt', 2, 'dict']]},
     {'ops': [['new', S('c', 'sep', [[0.0, 1.0], [0.0, 1.0, 3.0], [5.0]], 2.0)], ['rt', 0, 'copy'], ['reversed', 0], ['reversed', 2]]},
     # int vs float (D24)
     {'ops': [['new', S('c', 'reg', [[1.0, 1.0], [4, 4], [0.0, 0.0]])], ['new', S('c', 'reg', [[1.0, 1.0], [4, 4], [0.0, 0.0]], None, True)],
@@ -578,6 +671,11 @@ def model_requests(case):
     return lines, index
 
 
+def dis(ctx, stream, detail, key=None):
+    ctx.count('disagree:' + stream)
+    ctx.disagree(stream, detail, key)
+
+
 def run(ctx):
     ctx.rule = ('histories over a store of live grids: 1-3 base grids (Cartesian/polar; regular/separated incl. ragged/'
                 'unstructured; 1-3 D; dyadic values; optional twin differing in exactly one of system/kind/value/size/weights/'
@@ -647,28 +745,36 @@ def run(ctx):
             mstatus = 'ok' if ans.startswith('ok') else 'err:' + ans.split(' ')[1]
             ctx.traces_validated += 1
             if mstatus != st['status']:
-                ctx.disagree('C10 op status', {'case': case, 'op': op, 'impl': st['status'], 'model': ans})
+                dis(ctx, 'C10 op status', {'case': case, 'op': op, 'impl': st['status'], 'model': ans})
                 break
             obs = st['obs']
             stop = False
+            if st.get('dict') is not None:
+                # `toDict` of the model against what `to_dict()` wrote (the request just before the op)
+                ctx.traces_validated += 1
+                ctx.count('todict:' + st['dict']['type'])
+                d = compare_dict(out[base + m['op'] - 1], st['dict'], st['before'][op[1]])
+                if d is not None:
+                    dis(ctx, 'C10 to_dict', {'case': case, 'op': op, 'diff': d})
+                    break
             for k in range(m['n']):
                 ms = G.parse_show(out[base + m['show'] + k])
                 d = G.compare_show(ms, obs['snaps'][k], None, weights=False)    # weights are C11's business
                 if d is not None:
-                    ctx.disagree('C10 show', {'case': case, 'after': op, 'grid': k, 'diff': d})
+                    dis(ctx, 'C10 show', {'case': case, 'after': op, 'grid': k, 'diff': d})
                     stop = True
                     break
                 row = out[base + m['eqrow'] + k].split(' ')[1]
                 real_row = ''.join('1' if v is True else '0' if v is False else 'E' for v in obs['eq'][k])
                 if row != real_row:
-                    ctx.disagree('C10 eq', {'case': case, 'after': op, 'grid': k, 'impl': real_row, 'model': row},
+                    dis(ctx, 'C10 eq', {'case': case, 'after': op, 'grid': k, 'impl': real_row, 'model': row},
                                  key=None)
                     stop = True
                     break
                 if not G.exact_same(ms, obs['snaps'][k]):
                     if case.get('float'):
                         # the float model (every stored sum rounded to nearest-even binary64) must reproduce the bits
-                        ctx.disagree('C10 float shift', {'case': case, 'after': op, 'grid': k, 'impl': obs['snaps'][k]['data'],
+                        dis(ctx, 'C10 float shift', {'case': case, 'after': op, 'grid': k, 'impl': obs['snaps'][k]['data'],
                                                          'model': out[base + m['show'] + k][:300]})
                         stop = True
                         break
@@ -677,7 +783,7 @@ def run(ctx):
                 hk = obs['hash'][k]
                 want = G.hash_of_tokens(out[base + m['hash'] + k].split(' ')[1])
                 if hk[0] != 'ok' or hk[1] != want:
-                    ctx.disagree('C10 hash', {'case': case, 'after': op, 'grid': k, 'impl': hk, 'model-xxh64': want,
+                    dis(ctx, 'C10 hash', {'case': case, 'after': op, 'grid': k, 'impl': hk, 'model-xxh64': want,
                                               'tokens': out[base + m['hash'] + k][:200]})
                     stop = True
                     break
@@ -689,7 +795,7 @@ def run(ctx):
                 real = {k: v for k, v in zip(st['pool_keys'], st['pool'])}
                 for key, marr in zip(m['mpool'].keys, model_arrs):
                     if key in real and [float(x) for x in marr] != [float(x) for x in real[key]]:
-                        ctx.disagree('C10 caller arrays', {'case': case, 'array': list(key)[:8], 'impl': real[key][:8]})
+                        dis(ctx, 'C10 caller arrays', {'case': case, 'array': list(key)[:8], 'impl': real[key][:8]})
                         break
     ctx.extra['hash_tie_skipped_inexact'] = inexact
 
